@@ -60,6 +60,54 @@ pub fn build(enc: Enc, names: &[Vec<u8>], rng: &mut Rng) -> SymTab {
 
 /// A name set for hash-table workloads: duplicates, the empty name, bytes >= 0x80,
 /// algebraic collisions and long names. Never contains NUL bytes. Index 0 is "".
+/// A 7-byte printable suffix S such that djb2(prefix ++ S) == target (mod 2^32): the hash is affine in
+/// its state, 33^7 > 2^32 and the printable range is wider than 33, so the base-33 expansion of the
+/// residue always yields valid digits.
+pub fn gnu_suffix_for(prefix: &[u8], target: u32) -> Vec<u8> {
+    let mut h: u32 = 5381;
+    for &c in prefix {
+        h = h.wrapping_mul(33).wrapping_add(c as u32);
+    }
+    // h(prefix ++ S) = h * 33^7 + sum d_i * 33^(6-i); d_i = 0x21 + e_i
+    let p7 = 33u32.wrapping_pow(7);
+    let mut base_sum: u64 = 0;
+    for i in 0..7 {
+        base_sum += 0x21 * 33u64.pow(i);
+    }
+    let want = target.wrapping_sub(h.wrapping_mul(p7)) as u64; // sum d_i*33^i must be == want (mod 2^32)
+    let mut t = (want + (1u64 << 32) * 4 - base_sum % (1u64 << 32)) % (1u64 << 32);
+    // t < 2^32 < 33^7: plain base-33 digits
+    let mut e = [0u64; 7];
+    for d in e.iter_mut() {
+        *d = t % 33;
+        t /= 33;
+    }
+    // e[0] is the least significant digit = last character
+    (0..7).rev().map(|i| (0x21 + e[i]) as u8).collect()
+}
+
+/// Names that drive the gABI elf_hash state to its maximum (0x0fffffff) right before a large byte:
+/// the place where 32-bit / native-word implementations of the reference algorithm differ.
+pub fn sysv_extreme_name(rng: &mut Rng) -> Vec<u8> {
+    let mut v: Vec<u8> = Vec::new();
+    if rng.bool() {
+        let l = rng.usize_below(4);
+        for _ in 0..l {
+            v.push(b'a' + rng.below(26) as u8);
+        }
+    }
+    v.extend_from_slice(&[0x0f; 7]);
+    // after seven 0x0f bytes the low 28 bits are all ones (an ASCII prefix only perturbs bits 4..7 via the fold)
+    let tail = 1 + rng.usize_below(3);
+    for _ in 0..tail {
+        v.push([0x10u8, 0x12, 0x7f, 0x80, 0xf0, 0xff][rng.usize_below(6)]);
+    }
+    if rng.bool() {
+        v.push(b'a' + rng.below(26) as u8);
+    }
+    v
+}
+
 pub fn gen_names(rng: &mut Rng, max: usize, gnu: bool) -> Vec<Vec<u8>> {
     let n = match rng.below(6) {
         0 => rng.usize_below(3),
@@ -68,8 +116,21 @@ pub fn gen_names(rng: &mut Rng, max: usize, gnu: bool) -> Vec<Vec<u8>> {
     };
     let mut names: Vec<Vec<u8>> = vec![Vec::new()];
     while names.len() < n + 1 {
-        let kind = rng.below(12);
+        let kind = rng.below(14);
         let base: Vec<u8> = match kind {
+            12 if gnu => {
+                // an extension of an existing (or fresh) name with the *same* 32-bit hash, or one differing only in bit 0
+                let mut src: Vec<u8> = if names.len() > 1 && rng.bool() { names[1 + rng.usize_below(names.len() - 1)].clone() } else { (0..1 + rng.usize_below(6)).map(|_| b'a' + rng.below(26) as u8).collect() };
+                let mut h: u32 = 5381;
+                for &c in &src {
+                    h = h.wrapping_mul(33).wrapping_add(c as u32);
+                }
+                let target = if rng.chance(1, 3) { h ^ 1 } else { h };
+                let suf = gnu_suffix_for(&src, target);
+                src.extend_from_slice(&suf);
+                src
+            }
+            12 | 13 if !gnu => sysv_extreme_name(rng),
             0 => Vec::new(), // a non-null symbol with the empty name
             1 if names.len() > 1 => names[1 + rng.usize_below(names.len() - 1)].clone(), // duplicate
             2 => {
